@@ -15,19 +15,25 @@ condition and not true by construction.
 The model mirrors the code **after** the two `fix:` commits of work package C18
 (SKIP is honoured before the empty-tree branch of `_set_by_path`; `_default_tree` honours SELF).
 
-Not modelled (stated in the manifest): `key_paths=` views, indexing *inside* an ndarray leaf
-(ndarrays are opaque leaves, as in `_dfs_iter_tree`), unhashable / tuple-valued keys.
+**ndarrays** (work package C18N) are heap objects of their own: an `nd` cell is one ndarray *object*
+(a C-contiguous window `off, shape` of a buffer), a `buf` cell is the data buffer, which several array
+objects may share (`arr[i]` on `ndim > 1` is a *view*: a new `nd` cell on the **same** buffer;
+`copy.copy(arr)` is a new `nd` cell on a **new** buffer).  Element / row assignment is a `write` on the
+buffer cell.  `_set_by_path` into an ndarray (`setNd`), `__get` into an ndarray (`getV`), `copy.copy` of an
+ndarray root in `apply`, truthiness of an ndarray root are modelled line by line.
+
+Not modelled (stated in the manifest): `key_paths=` views, unhashable / tuple-valued / slice keys, 0-d
+arrays, non-integer dtypes, non-contiguous arrays (no operation of tree.py creates one from a contiguous one).
 -/
 namespace MlModel.Tree
 
 /-- References are heap indices. (A notation rather than a definition, so that `omega` sees `Nat`.) -/
 scoped notation "Ref" => Nat
 
-/-- Leaf values.  `arr` is a 1-D integer ndarray (an opaque leaf), `none` is Python `None`. -/
+/-- Leaf values (`int` also stands for a numpy integer scalar read from an array), `none` is Python `None`. -/
 inductive Val where
   | int (i : Int)
   | str (s : String)
-  | arr (xs : List Int)
   | none
   deriving DecidableEq, Repr, Inhabited
 
@@ -67,13 +73,17 @@ def PKey.asInt : PKey → Option Int
   | .int i => some i
   | _ => none
 
-/-- Heap cells. `null` is a `NullMap` instance. -/
+/-- Heap cells. `null` is a `NullMap` instance.  `nd b off shape` is an ndarray *object*: the C-contiguous
+window of `shape.prod` elements starting at `off` of the buffer stored in cell `b`; `buf xs` is such a buffer
+(int64 elements).  Two `nd` cells with the same `b` share memory (`np.shares_memory`). -/
 inductive Node where
   | dict (es : List (DKey × Ref))
   | list (rs : List Ref)
   | tuple (rs : List Ref)
   | leaf (v : Val)
   | null
+  | nd (b : Ref) (off : Nat) (shape : List Nat)
+  | buf (xs : List Int)
   deriving DecidableEq, Repr, Inhabited
 
 abbrev Heap := Array Node
@@ -110,8 +120,108 @@ def seqGet (rs : List Ref) (k : PKey) : Except ErrKind Ref :=
     | some c => .ok c
     | none => .error .index                     -- IndexError
 
+/-! ## ndarray primitives -/
+
+/-- number of elements of a shape -/
+def prod : List Nat → Nat
+  | [] => 1
+  | n :: s => n * prod s
+
+/-- elements `[off, off+len)` of a buffer -/
+def slice (xs : List Int) (off len : Nat) : List Int := (xs.drop off).take len
+
+/-- the buffer with the elements `[off, off + ys.length)` overwritten by `ys` -/
+def splice (xs : List Int) (off : Nat) (ys : List Int) : List Int :=
+  xs.take off ++ ys ++ xs.drop (off + ys.length)
+
+/-- the content of a buffer cell (`[]` if `b` is not a buffer: impossible in Python) -/
+def bufOf (h : Heap) (b : Ref) : List Int :=
+  match h[b]? with
+  | some (.buf xs) => xs
+  | _ => []
+
+/-- the (flattened, row-major) elements of the array object `nd b off shape` -/
+def ndElems (h : Heap) (b off : Nat) (shape : List Nat) : List Int := slice (bufOf h b) off (prod shape)
+
+/-- `copy.copy(arr)` / `arr.copy()`: a NEW buffer holding the elements, and a new array object on it. -/
+def ndCopy (h : Heap) (b off : Nat) (shape : List Nat) : Heap × Ref :=
+  let (h1, nb) := alloc h (.buf (ndElems h b off shape))
+  alloc h1 (.nd nb 0 shape)
+
+/-- The object `arr[j]` creates, `arr` having the window `o, inner` for its `j`-th item: a numpy scalar
+(a fresh immutable leaf) when the item is an element, a **view** — a new array object on the *same*
+buffer — when it is a sub-array. -/
+def ndItem (h : Heap) (b o : Nat) (inner : List Nat) : Heap × Ref :=
+  match inner with
+  | [] => alloc h (.leaf (.int ((bufOf h b).getD o 0)))
+  | _ => alloc h (.nd b o inner)
+
+/-- `arr[...] = ys` on the window starting at `o`: a `write` on the buffer cell. -/
+def ndWrite (h : Heap) (b o : Nat) (ys : List Int) : Heap :=
+  match h[b]? with
+  | some (.buf xs) => write h b (.buf (splice xs o ys))
+  | _ => h
+
+/-- numpy broadcasting of elements `xs` of shape `s` to the shape `t` (`s`, `t` of equal length). -/
+def bcastSame : List Nat → List Nat → List Int → Option (List Int)
+  | [], [], xs => some xs
+  | sd :: s, td :: t, xs =>
+    if sd = td then
+      ((List.range td).mapM fun i => bcastSame s t (slice xs (i * prod s) (prod s))).map List.flatten
+    else if sd = 1 then (bcastSame s t xs).map fun ys => (List.replicate td ys).flatten
+    else none
+  | _, _, _ => none
+
+/-- strip up to `n` leading dimensions of size 1 -/
+def stripOnes : Nat → List Nat → List Nat
+  | n + 1, 1 :: s => stripOnes n s
+  | _, s => s
+
+/-- `dst[...] = src` with `src` of shape `s` and the destination window of shape `t`: surplus leading
+dimensions of `s` must be 1, then `s` is right-aligned with `t`. -/
+def bcast (s t : List Nat) (xs : List Int) : Option (List Int) :=
+  let s' := stripOnes (s.length - t.length) s
+  if s'.length > t.length then none
+  else bcastSame (List.replicate (t.length - s'.length) 1 ++ s') t xs
+
+/-- `np.asarray(value)` for a value that converts to an integer array: `(shape, elements)`.  An int (or
+numpy integer scalar) is 0-d, an ndarray is itself, a list/tuple of equally shaped convertible items gets
+one more leading dimension.  `none`: str / None / dict / NullMap items or a ragged nesting (numpy raises
+`ValueError` / `TypeError`).  `fuel` bounds the nesting depth. -/
+def valArr (h : Heap) : Nat → Ref → Option (List Nat × List Int)
+  | 0, _ => none
+  | fuel + 1, r =>
+    match h[r]? with
+    | some (.leaf (.int x)) => some ([], [x])
+    | some (.nd b off shape) => some (shape, ndElems h b off shape)
+    | some (.list rs) | some (.tuple rs) =>
+      match rs.mapM (valArr h fuel) with
+      | none => none
+      | some [] => some ([0], [])
+      | some ((s0, xs0) :: rest) =>
+        if rest.all (fun sx => sx.1 == s0) then
+          some (rs.length :: s0, xs0 ++ (rest.map (·.2)).flatten)
+        else none
+    | _ => none
+
+/-- The elements `arr[j] = value` stores into a window of shape `t` (`none`: numpy raises `ValueError` or
+`TypeError`).  An int fills the window; an ndarray is broadcast; a list/tuple is converted with at most
+`ndim(window)` dimensions ("setting an array element with a sequence" otherwise) and broadcast; an element
+window (`t = []`) only takes an int. -/
+def coerce (h : Heap) (c : Ref) (t : List Nat) : Option (List Int) :=
+  match h[c]? with
+  | some (.leaf (.int x)) => some (List.replicate (prod t) x)
+  | some (.nd b off s) => if t = [] then none else bcast s t (ndElems h b off s)
+  | some (.list _) | some (.tuple _) =>
+    match valArr h (h.size + 1) c with
+    | some (s, xs) => if s.length > t.length then none else bcast s t xs
+    | none => none
+  | _ => none
+
 /-- `node[k]` for the object stored in one cell (tree.py:380-387): dict lookup, sequence indexing, or the
-`KeyError('Cannot use ... as a mapping key')` raised for anything that is neither. -/
+`KeyError('Cannot use ... as a mapping key')` raised for anything that is neither.  This is the
+*reference-valued* read: indexing an ndarray creates a new object and is outside this function (`.other`);
+the complete `__get` is `getV` below, which agrees with `get` whenever `get` succeeds (`getV_of_get`). -/
 def Node.slotGet : Node → PKey → Except ErrKind Ref
   | .dict es, k =>
     match dictGet es k.toDKey with
@@ -119,6 +229,7 @@ def Node.slotGet : Node → PKey → Except ErrKind Ref
     | none => .error .key                       -- KeyError
   | .list rs, k | .tuple rs, k => seqGet rs k
   | .leaf _, _ | .null, _ => .error .key
+  | .nd _ _ _, _ | .buf _, _ => .error .other  -- `arr[k]` is not a stored reference but a NEW object: see `getV`
 
 /-- `data[k]` as executed by `TreeMapView.__get`. -/
 def index (h : Heap) (r : Ref) (k : PKey) : Except ErrKind Ref :=
@@ -168,6 +279,76 @@ def getD (h : Heap) (root : Ref) (ks : Keys) (dflt : GetRes) : Except ErrKind Ge
   | .error .index => .ok dflt
   | .error e => .error e
 
+/-! ## the complete `__get`: paths that index into an ndarray -/
+
+/-- What `__get` returns: an object of the heap, or a **new** object that `arr[k]` created — a view of the
+buffer `b` (window `off, shape`), or a numpy scalar.  New objects are immutable headers, so they need no
+cell: their identity is "fresh", their aliasing is the buffer they name. -/
+inductive Loc where
+  | obj (r : Ref)
+  | view (b off : Nat) (shape : List Nat)
+  | scalar (x : Int)
+  deriving DecidableEq, Repr, Inhabited
+
+/-- the rest of the `__get` loop once `data` is a numpy scalar -/
+def scalarWalk (x : Int) : Path → Except ErrKind (Loc × Bool)
+  | [] => .ok (.scalar x, true)
+  | .self :: _ => .ok (.scalar x, true)
+  | .lit _ v :: _ => .ok (.obj v, false)
+  | _ :: _ => .error .key                          -- 'Cannot use ... as a mapping key'
+
+/-- the rest of the `__get` loop once `data` is a (new) view `b, off, shape`: `data = data[k]` is pure
+arithmetic on the window, it never leaves the buffer. -/
+def ndWalk (h : Heap) (b : Ref) : Nat → List Nat → Path → Except ErrKind (Loc × Bool)
+  | off, shape, [] => .ok (.view b off shape, true)
+  | off, shape, .self :: _ => .ok (.view b off shape, true)
+  | _, _, .lit _ v :: _ => .ok (.obj v, false)
+  | _, [], _ :: _ => .error .key                   -- 0-d: not `is_array_like`
+  | off, n :: inner, k :: ks =>
+    match k.asInt with
+    | none => .error .index                        -- IndexError: only integers, slices, ...
+    | some i =>
+      match resolveIdx n i with
+      | none => .error .index                      -- IndexError: out of bounds
+      | some j =>
+        match inner with
+        | [] => scalarWalk ((bufOf h b).getD (off + j * prod inner) 0) ks
+        | _ => ndWalk h b (off + j * prod inner) inner ks
+
+/-- `TreeMapView.__get` (tree.py:384-401), complete: as `getCore` until `data` is an ndarray with keys
+still to go, then `ndWalk`. -/
+def getV (h : Heap) : Ref → Path → Except ErrKind (Loc × Bool)
+  | r, [] => .ok (.obj r, true)
+  | r, .self :: _ => .ok (.obj r, true)
+  | _, .lit _ v :: _ => .ok (.obj v, false)
+  | r, k :: ks =>
+    match h[r]? with
+    | none => .error .other
+    | some (.nd b off shape) => ndWalk h b off shape (k :: ks)
+    | some n =>
+      match n.slotGet k with
+      | .ok c => getV h c ks
+      | .error e => .error e
+
+inductive GetResV where
+  | one (l : Loc)
+  | many (ls : List Loc)
+  deriving Repr, DecidableEq, Inhabited
+
+/-- `TreeMapView.__getitem__` (tree.py:412-424), complete. -/
+def getItemV (h : Heap) (root : Ref) : Keys → Except ErrKind GetResV
+  | .path p => (getV h root p).map fun x => .one x.1
+  | .empty => .ok (.many [])
+  | .multi ks => (ks.mapM fun p => (getV h root p).map (·.1)).map .many
+
+/-- `TreeMapView.get(key, default)` (tree.py:426-430), complete. -/
+def getDV (h : Heap) (root : Ref) (ks : Keys) (dflt : GetResV) : Except ErrKind GetResV :=
+  match getItemV h root ks with
+  | .ok r => .ok r
+  | .error .key => .ok dflt
+  | .error .index => .ok dflt
+  | .error e => .error e
+
 /-- `normalize_keys` (tree.py:257-265). -/
 def normalizeKeys : Keys → List Path
   | .path p => [p]
@@ -209,6 +390,13 @@ def assign (h : Heap) (res : Ref) (k : PKey) (child : Ref) : Res Unit :=
   | some (.dict cur) => (write h res (.dict (dictSet cur k.toDKey child)), .ok ())
   | _ => (h, .error .other)
 
+/-- `except (ValueError, KeyError, IndexError, TypeError) as e: raise KeyError(...)` (tree.py:503-507): these
+four become `KeyError`; anything else (the `AssertionError` of line 490, a `RecursionError`) passes through. -/
+def wrapKey : ErrKind → ErrKind
+  | .assertion => .assertion
+  | .runtime => .runtime
+  | _ => .key
+
 /-- The `is_array_like(result)` arm of `_set_by_path` (tree.py:472-478); `rs` is the content of `res`
 on entry, `recur h child` is the recursive call `self._set_by_path(result[key], Key(rest_keys), value,
 in_place)`.  All exceptions inside the `try` are re-raised as `KeyError`. -/
@@ -233,7 +421,7 @@ def setSeq (recur : Heap → Ref → Res Ref) (h1 : Heap) (res : Ref) (rs : List
           match assign h3 res k c with
           | (h4, .ok ()) => (h4, .ok ())
           | (h4, .error _) => (h4, .error .key)
-        | (h3, .error _) => (h3, .error .key)
+        | (h3, .error e) => (h3, .error (wrapKey e))
 
 /-- The `isinstance(result, Mapping)` arm (tree.py:479-482); `es` is the content of `res` on entry. -/
 def setMap (recur : Heap → Ref → Res Ref) (h1 : Heap) (res : Ref) (es : List (DKey × Ref)) (k : PKey) :
@@ -247,7 +435,38 @@ def setMap (recur : Heap → Ref → Res Ref) (h1 : Heap) (res : Ref) (es : List
     match assign h3 res k c with
     | (h4, .ok ()) => (h4, .ok ())
     | (h4, .error _) => (h4, .error .key)
-  | (h3, .error _) => (h3, .error .key)                  -- except (...) → raise KeyError
+  | (h3, .error e) => (h3, .error (wrapKey e))           -- except (...) → raise KeyError
+
+/-- The `is_array_like(result)` arm of `_set_by_path` when `tree` is an **ndarray** `nd b off shape`
+(tree.py:480, 488-494).  `result = tree if in_place else copy.copy(tree)` — the copy has its own buffer;
+`key == len(result)` trips `assert isinstance(result, list)` (an `AssertionError`, which the `except` clause
+does not catch); `result[key]` is a **view of `result`** (or a scalar); the recursive call returns `c`;
+`result[key] = c` stores the elements of `c`, broadcast, into the window — a write on `result`'s buffer.
+In in-place mode `result` is the caller's array: its buffer is written.  A 0-d array is neither array-like
+nor a Mapping: `ValueError` → `KeyError`. -/
+def setNd (recur : Heap → Ref → Res Ref) (inPlace : Bool) (h : Heap) (tree b off : Nat) (shape : List Nat)
+    (k : PKey) : Res Ref :=
+  let (h1, res, b1, off1) :=
+    if inPlace then (h, tree, b, off) else ((ndCopy h b off shape).1, (ndCopy h b off shape).2, h.size, 0)
+  match shape with
+  | [] => (h1, .error .key)
+  | n :: inner =>
+    match k.asInt with
+    | none => (h1, .error .key)                             -- result[key]: IndexError → KeyError
+    | some i =>
+      if i = (n : Int) then (h1, .error .assertion)         -- key == len(result): assert isinstance(result, list)
+      else
+        match resolveIdx n i with
+        | none => (h1, .error .key)                         -- IndexError → KeyError
+        | some j =>
+          let o := off1 + j * prod inner
+          let (h2, child) := ndItem h1 b1 o inner           -- result[key]
+          match recur h2 child with
+          | (h3, .error e) => (h3, .error (wrapKey e))
+          | (h3, .ok c) =>
+            match coerce h3 c inner with                    -- result[key] = c
+            | none => (h3, .error .key)                     -- ValueError / TypeError → KeyError
+            | some ys => (ndWrite h3 b1 o ys, .ok res)
 
 /-- `_set_by_path(tree, key_path, value, in_place)` (tree.py:436-495, with the SKIP repair).
 Returns the heap even when the call raises: in in-place mode the `append(NullMap())` of line 475
@@ -282,6 +501,9 @@ def setPath (strict inPlace : Bool) (h : Heap) (tree : Ref) : Path → Ref → R
       match setMap (fun h' c => setPath strict inPlace h' c rest v) h1 res es k with
       | (h2, .ok ()) => (h2, .ok res)
       | (h2, .error e) => (h2, .error e)
+    | some (.nd b off shape) =>                            -- an ndarray: hasattr(tree, '__setitem__')
+      setNd (fun h' c => setPath strict inPlace h' c rest v) inPlace h tree b off shape k
+    | some (.buf _) => (h, .error .other)                 -- a bare buffer is not a Python object
 
 /-- Python truthiness of an object (`if values:` / `elif data:`). -/
 def truthy (h : Heap) (r : Ref) : Except ErrKind Bool :=
@@ -293,10 +515,11 @@ def truthy (h : Heap) (r : Ref) : Except ErrKind Bool :=
   | some (.leaf (.int i)) => .ok (i != 0)
   | some (.leaf (.str s)) => .ok (s != "")
   | some (.leaf .none) => .ok false
-  | some (.leaf (.arr xs)) =>
-    match xs with
+  | some (.nd b off shape) =>
+    match ndElems h b off shape with
     | [x] => .ok (x != 0)
     | _ => .error .value                                  -- empty or longer: 'truth value ... is ambiguous'
+  | some (.buf _) => .error .other
 
 /-- Sequential `data = self._set_by_path(data, key, value, in_place)` (tree.py:527-528). -/
 def setMany (strict inPlace : Bool) : Heap → Ref → List (Path × Ref) → Res Ref
@@ -430,7 +653,7 @@ def shallowCopy (h : Heap) (r : Ref) : Heap × Ref :=
   | some (.dict es) => alloc h (.dict es)
   | some (.list rs) => alloc h (.list rs)
   | some .null => alloc h .null
-  | some (.leaf (.arr xs)) => alloc h (.leaf (.arr xs))
+  | some (.nd b off shape) => ndCopy h b off shape
   | _ => (h, r)
 
 /-- `TreeMapView.apply()` (tree.py:566-571) with `map_fn = some f` (and no `key_paths`); with
